@@ -15,6 +15,9 @@ func vh_C11_L1_counter_exact() {
 	// arbitrary cursor positions (any history, including wrap)
 	r.nextSSN = nondetU16()
 	r.nextMID = nondetU32()
+	// the association only hands over chunks whose TSN lies in its tracking window: all TSNs
+	// of one history are within 2^16 of each other (any base, wrap included)
+	tsnBase := nondetU32()
 	steps := 2
 	if vtier() > 0 {
 		steps = 3
@@ -25,7 +28,7 @@ func vh_C11_L1_counter_exact() {
 			c := &chunkPayloadData{
 				streamIdentifier: 3, userData: make([]byte, 1+vPick(2)), unordered: nondetBool(),
 				beginningFragment: nondetBool(), endingFragment: nondetBool(),
-				tsn: nondetU32(), streamSequenceNumber: nondetU16(), messageIdentifier: nondetU32(),
+				tsn: tsnBase + uint32(nondetU16()), streamSequenceNumber: nondetU16(), messageIdentifier: nondetU32(),
 				fragmentSequenceNumber: nondetU32(), iData: iData, payloadType: PayloadTypeWebRTCBinary,
 			}
 			_, err := r.pushWithError(c)
